@@ -280,6 +280,27 @@ def r55(ctx):
         raise AnalysisError("R-5.5: no bound guard protecting an index found in the permanent code (expected the `len(...) <= offset` guard of inf_retis)")
 
 
+def r52b(ctx):
+    """Every completed step re-sorts before it commits: in treat_output the call of
+    sort_trajstate() dominates write_toml() (it is executed on every path, also for a rejected
+    move - the re-sort repairs idle paths that the *pick* displaced, not the returned ones)."""
+    rid = "R-5.2"
+    cls = ctx.tree.cls(REPEX, "REPEX_state")
+    f = next(s for s in cls.body if isinstance(s, FUNC) and s.name == "treat_output")
+    cfg = cfg_of(f)
+    sorts = [c for c in walk_local(f) if isinstance(c, ast.Call) and is_self_attr(c.func, "sort_trajstate")]
+    commits = [c for c in walk_local(f) if isinstance(c, ast.Call) and is_self_attr(c.func, "write_toml")]
+    if not commits:
+        raise AnalysisError("R-5.2: treat_output does not call write_toml")
+    for wc in commits:
+        wn = cfg.node_of(wc)
+        if any(cfg.dominates(sn, wn) for s_ in sorts for sn in cfg.nodes_of(s_)):
+            ctx.ok(rid, wc, "treat_output: sort_trajstate() is executed on every path to write_toml()")
+        else:
+            ctx.bad(rid, wc, "treat_output can reach write_toml() without having called sort_trajstate() (the re-sort is conditional or missing): after such a step an idle live path is left in an ensemble where its weight is zero, and the restart file written there does not load",
+                    construct="treat_output: write_toml not dominated by sort_trajstate")
+
+
 def run(ctx):
     ctx.rule("R-5.2", "the restart file written after a step is written after the re-sorting (commit is final)", floor=1)
     ctx.rule("R-5.4", "in-flight jobs are persisted in the ensemble-index unit that the restart reads back (shared with C08 R-8.7)", floor=4)
@@ -295,9 +316,11 @@ def run(ctx):
     ctx.attempt(whole_busy_set, ctx, "R-5.6", " - the re-sort can then move a busy path")
     from .shared import commit_is_final
     ctx.attempt(commit_is_final, ctx, "R-5.2")
+    ctx.attempt(r52b, ctx)
 
 
 VARIANTS = [
+    B("c05-sort-only-when-accepted", REPEX, '            write_to_pathens(self, md_items["pnum_old"])\n\n        self.sort_trajstate()\n', '            write_to_pathens(self, md_items["pnum_old"])\n            self.sort_trajstate()\n\n', "R-5.2", why="seeded C05_d"),
     K("c05-keep-sort-busy-renamed", REPEX, "            locks = self.locked_paths()\n            zero_idx", "            busy = self.locked_paths()\n            zero_idx", also=[(REPEX, "                j if self._trajs[i].path_number not in locks else 0\n", "                j if self._trajs[i].path_number not in busy else 0\n")]),
     B("c05-sort-drops-last-busy-path", REPEX, "            locks = self.locked_paths()\n            zero_idx", "            locks = self.locked_paths()[:-1]\n            zero_idx", "R-5.6", control=True, why="seeded C03_d"),
     B("c05-only-minus-guard-off-by-one", REPEX, "        if len(sorted_non_locked_T) <= offset:\n            equal_pos = True", "        if len(sorted_non_locked_T) < offset:\n            equal_pos = True", "R-5.5", control=True, why="seeded C05_c"),
